@@ -20,7 +20,7 @@ from ..evidence import Run, canon_hash
 PID = "C13"
 SHARDS = {"quick": 8, "thorough": 16}
 SHARD_TIMEOUT = {"quick": 170, "thorough": 1500}
-N_CASES = {"quick": 560, "thorough": 6400}
+N_CASES = {"quick": 560, "thorough": 4000}
 N_DRAWS = {"quick": 8, "thorough": 25}
 N_COLD = {"quick": 10, "thorough": 64}
 
@@ -473,6 +473,20 @@ def classify(case, fl, d):
     if cls in ("dt", "td"):
         if all(_trunc_ok(chk, v) for v in vals):
             return "time-values-truncated-to-microseconds"
+
+    # elements are mapped to numpy str_ and stored in '<U' arrays, where
+    # trailing NUL characters are padding: "ab\x00" comes back as "ab"
+    if cls == "str" and all(isinstance(v, str) for v in vals):
+        def with_nuls(v):
+            for n in (1, 2, 3):
+                try:
+                    if G.holds(chk, v + "\x00" * n):
+                        return True
+                except Exception:       # noqa: BLE001
+                    return False
+            return False
+        if all(with_nuls(v) for v in vals):
+            return "numpy-str-array-drops-trailing-NUL-characters"
     return None
 
 
@@ -726,6 +740,9 @@ def report(run, kind, case, brief, d, verdict, info, verbose):
 # driver
 # --------------------------------------------------------------------------
 def run(run, ctx):
+    import faulthandler
+    import sys
+    faulthandler.enable(file=sys.stderr)     # a crashing worker names its frame
     n_cases, n_draws, n_cold = N_CASES[ctx.tier], N_DRAWS[ctx.tier], N_COLD[ctx.tier]
     prewarm()
     directed = G.directed_cases()
@@ -792,7 +809,7 @@ FLOORS_QUICK = {
     "judged:with_index:single": 6, "judged:with_index:multi": 2,
     "judged:chain_len:1": 40, "judged:chain_len:2": 40, "judged:chain_len:3": 20,
     "distinct_ordered_check_pairs_judged": 50,
-    "dtypes_judged": len(G.ALL_DTYPES) - 2, "directed_corpus_cases": 17,
+    "dtypes_judged": len(G.ALL_DTYPES) - 2, "directed_corpus_cases": 18,
     "sizes_judged": 7,
 }
 
